@@ -855,6 +855,64 @@ pub fn run(tier: &str) -> i32 {
         });
         all.merge(Acc::merge_all(accs));
     }
+    // ---- large tokens: messages of 70 001 and 131 075 bytes (a PAE that spans one and two 64 KiB blocks plus a
+    //      remainder), core layer: one bit flipped in the decoded payload at its first and last 24 bytes and two
+    //      bytes either side of every multiple of 65 536 (from the front and from the back), and the last
+    //      character of the footer segment replaced. Authentication that walks the input in blocks has to cover
+    //      the last, partial one as well.
+    {
+        let protos: Vec<Proto> = Proto::ALL.to_vec();
+        let accs = par_units(&protos, |p| {
+            let mut acc = Acc::default();
+            let key = domains::key_pool(*p)[0].clone();
+            let seed = domains::seeds(*p)[2].clone();
+            let a = if p.has_assertion() { Some("{\"test-vector\":\"4-S-3\"}".to_string()) } else { None };
+            for n in [70_001usize, 131_075] {
+                if quick && n > 100_000 && matches!(*p, Proto::V1P | Proto::V3P) {
+                    continue;
+                }
+                let msg = format!("{{\"data\":\"{}\"}}", "x".repeat(n - 11));
+                let case = IssueCase::new(*p, Layer::Core, &key, Some(&seed), &msg, &Some("f".to_string()), &a);
+                let Out::Ok(token) = case.issue() else { continue };
+                let base = Base { case, token: token.clone(), siblings: Vec::new() };
+                let Some(pt) = parts(&token) else { continue };
+                let len = pt.decoded.len();
+                let mut positions: Vec<usize> = (0..24.min(len)).chain(len.saturating_sub(24)..len).collect();
+                let mut b = 65_536usize;
+                while b < len + 2 {
+                    for d in 0..4usize {
+                        let front = (b + d).wrapping_sub(2);
+                        if front < len {
+                            positions.push(front);
+                        }
+                        if let Some(back) = (len + 1).checked_sub(b + d) {
+                            if back < len {
+                                positions.push(back);
+                            }
+                        }
+                    }
+                    b += 65_536;
+                }
+                positions.sort();
+                positions.dedup();
+                for pos in positions {
+                    let mut d = pt.decoded.clone();
+                    d[pos] ^= 1 << (pos % 8);
+                    check_mutant(&base, Family::BitFlip, &reassemble(&pt, &d), Layer::Core, &mut acc);
+                    acc.choice_points += 1;
+                }
+                for repl in ["Zw", "Zg.", ""] {
+                    let cut = token.rfind('.').map_or(token.len(), |i| i + 1);
+                    let m = format!("{}{}", &token[..cut], repl);
+                    check_mutant(&base, Family::BitFlip, &m, Layer::Core, &mut acc);
+                    acc.choice_points += 1;
+                }
+                acc.bump("large-token-bases");
+            }
+            acc
+        });
+        all.merge(Acc::merge_all(accs));
+    }
     all.states = all.distinct.len() as u64;
     let bases_n: usize = all_bases.iter().map(|(_, b)| b.len()).sum();
     let extra = json!({
